@@ -88,7 +88,8 @@ def deflate_ext_header(sbits=None, cbits=None, snct=False, cnct=False,
                 p = p.replace('=', ' = ') if '"' not in p else p
             out.append(p)
         params = out
-        sep = rng.choice(['; ', ';', ' ; ', ';  '])
+        sep = rng.choice(['; ', ';', ' ; ', ';  ', ';\r\n ', ';\r\n\t',
+                          '; \r\n\t '])
     else:
         sep = '; '
     return ('Sec-WebSocket-Extensions: ' +
